@@ -164,10 +164,12 @@ func (s *Schema) AddTwoWayRel(rel Rel) error {
 // relationships (two types where each has a relationship pointing to the other
 // type), only one of the two relationships will appear in the list.
 func (s *Schema) Rels() []Rel {
-	s.buildRels()
+	// The set is not stored in the schema: Rels can be called by several
+	// goroutines that share the schema.
+	set := s.buildRels()
 
-	rels := make([]Rel, 0, len(s.rels))
-	for _, rel := range s.rels {
+	rels := make([]Rel, 0, len(set))
+	for _, rel := range set {
 		rels = append(rels, rel)
 	}
 
@@ -273,8 +275,8 @@ func (s *Schema) Check() []error {
 
 // buildRels builds the set of normalized relationships that is returned by
 // Schema.Rels.
-func (s *Schema) buildRels() {
-	s.rels = map[string]Rel{}
+func (s *Schema) buildRels() map[string]Rel {
+	rels := map[string]Rel{}
 
 	for _, typ := range s.Types {
 		for _, rel := range typ.Rels {
@@ -286,7 +288,9 @@ func (s *Schema) buildRels() {
 				"%q %q %q %q",
 				norm.FromType, norm.FromName, norm.ToType, norm.ToName,
 			)
-			s.rels[relName] = norm
+			rels[relName] = norm
 		}
 	}
+
+	return rels
 }
